@@ -152,13 +152,16 @@ def facade_case(w: dict, ps: dict) -> dict:
 
 
 # ---- gas table ------------------------------------------------------------------------------------------------
-def gas_values(rng: np.random.Generator, zero: bool = False) -> dict:
+def gas_values(rng: np.random.Generator, zero: bool = False, only: str | None = None) -> dict:
+    """zero: no contaminants at all; only: exactly one contaminant present (nitrogen-only, H2S-only, CO2-only gases)."""
     while True:
         n2, h2s, co2 = (0.0, 0.0, 0.0) if zero else (float(rng.uniform(0.002, 0.09)), float(rng.uniform(0.002, 0.05)),
                                                      float(rng.uniform(0.002, 0.09)))
+        if only is not None:
+            n2, h2s, co2 = (n2 if only == "N2" else 0.0, h2s if only == "H2S" else 0.0, co2 if only == "CO2" else 0.0)
         g = float(rng.uniform(0.6, 0.95))
         t = float(rng.uniform(150.0, 340.0))
-        vals = [n2, h2s, co2, g] if not zero else [g]
+        vals = [x for x in (n2, h2s, co2) if x != 0.0] + [g]
         if all(abs(x - y) > 2e-3 for i, x in enumerate(vals) for y in vals[i + 1:]):
             return {"N2": n2, "H2S": h2s, "CO2": co2, "Gas Specific Gravity": g, "Reservoir Temperature (deg F)": t}
 
